@@ -113,7 +113,7 @@ impl Check for C09 {
         tier.pick(std::time::Duration::from_secs(200), std::time::Duration::from_secs(2400))
     }
     fn required_counters(&self, _tier: Tier) -> Vec<&'static str> {
-        vec!["kind:Chunk", "kind:Pad", "kind:Tx", "kind:Reg", "advertisements-checked", "divergent-keys:Reg", "divergent-keys:Tx", "divergent-keys:Pad", "advertiser:unknown", "advertiser:known-not-closest", "advertiser:closest", "chunks-replicated", "nodes:3", "ranged-cases", "seeding:direct-put", "seeding:through-validation", "realnet:converged", "realnet:periodic-rounds-run"]
+        vec!["kind:Chunk", "kind:Pad", "kind:Tx", "kind:Reg", "advertisements-checked", "divergent-keys:Reg", "divergent-keys:Tx", "divergent-keys:Pad", "advertiser:unknown", "advertiser:known-not-closest", "advertiser:closest", "chunks-replicated", "nodes:3", "ranged-cases", "seeding:direct-put", "seeding:through-validation"]
     }
     fn lane_cases(&self, tier: Tier) -> u64 {
         tier.pick(8, 64)
